@@ -89,7 +89,13 @@ impl TryFrom<(FeelNumber, FeelNumber, FeelNumber)> for FeelDate {
   /// Converts a tuple of numbers into [FeelDate].
   fn try_from(value: (FeelNumber, FeelNumber, FeelNumber)) -> Result<Self, Self::Error> {
     let year = value.0.into();
-    if value.1 > FeelNumber::zero() && value.2 > FeelNumber::zero() {
+    if value.0 >= FeelNumber::from(-999_999_999)
+      && value.0 <= FeelNumber::from(999_999_999)
+      && value.1 > FeelNumber::zero()
+      && value.1 <= FeelNumber::from(12_u8)
+      && value.2 > FeelNumber::zero()
+      && value.2 <= FeelNumber::from(31_u8)
+    {
       let month = value.1.into();
       let day = value.2.into();
       if is_valid_date(year, month, day) {
